@@ -129,12 +129,12 @@ Definition reg_redelegate_msgs (w : world) (g : registry) (v : val) : result (li
                MWasm hubaddr (WHub (HUpdateGlobal 0)) [] ]
   end.
 
-Definition reg_execute (w : world) (sender : addr) (m : reg_msg) : result (world * list cmsg) :=
-  do g <- w_reg w;
+Definition reg_execute (w : world) (g : registry) (sender : addr) (m : reg_msg)
+  : result (registry * list cmsg) :=
   match m with
   | GAdd v =>
       check (sender =? rg_owner g) || (sender =? rg_hub g);
-      Some (set_reg w (set_rg_vals g (insert_val v (rg_vals g))), [])
+      Some (set_rg_vals g (insert_val v (rg_vals g)), [])
   | GRemove v =>
       check sender =? rg_owner g;
       let g' := set_rg_vals g (remove_val v (rg_vals g)) in
@@ -142,20 +142,20 @@ Definition reg_execute (w : world) (sender : addr) (m : reg_msg) : result (world
       | [] => None
       | _ =>
           do msgs <- reg_redelegate_msgs w g' v;
-          Some (set_reg w g', msgs)
+          Some (g', msgs)
       end
   | GConfig h =>
       check sender =? rg_owner g;
       let g' := match h with Some a => mkReg (rg_owner g) a (rg_vals g) (rg_newowner g) | None => g end in
-      Some (set_reg w g', [])
+      Some (g', [])
   | GRedelegations v =>
       check negb (existsb (N.eqb v) (rg_vals g));
       do msgs <- reg_redelegate_msgs w g v;
-      Some (w, msgs)
+      Some (g, msgs)
   | GSetOwner a =>
       check sender =? rg_owner g;
-      Some (set_reg w (mkReg (rg_owner g) (rg_hub g) (rg_vals g) a), [])
+      Some (mkReg (rg_owner g) (rg_hub g) (rg_vals g) a, [])
   | GAccept =>
       check sender =? rg_newowner g;
-      Some (set_reg w (mkReg (rg_newowner g) (rg_hub g) (rg_vals g) (rg_newowner g)), [])
+      Some (mkReg (rg_newowner g) (rg_hub g) (rg_vals g) (rg_newowner g), [])
   end.
